@@ -4,6 +4,7 @@ import Arc.Proofs.C22.Files
 import Arc.Proofs.C22.RestoreParents
 import Arc.Model.C22.PreFix
 import Arc.Proofs.C22.Tokens
+import Arc.Proofs.C22.Members
 /-!
 # C22 — cluster state machine: replay determinism and snapshot fidelity
 
@@ -287,6 +288,52 @@ example :
        .cmd 6 (.rotateToken 1 "h3" "q"), .cmd 7 (.updateToken 2 "" "" "" 0 ["name"]), .cmd 9 (.deleteToken 1)]
     idxIncreasing 1 evs = true ∧ (runEv State.empty evs).au.byName = [("tB", 2)] ∧
     (runEv State.empty evs).au.byPrefix = [("q", [2])] := by decide
+
+/-! ## the three membership indexes agree exactly with the membership records -/
+
+/-- **C22_membership_indexes_agree.** For every history with strictly increasing log indexes ≥ 1
+(restores anywhere), through AddTokenToTeam / RemoveTokenFromTeam and the team, organization and
+token cascades:
+`tokenMembershipsByPair[tok][team] = id` iff membership `id` exists with that token and team (so
+UNIQUE(token, team) holds and a duplicate AddTokenToTeam is refused);
+`tokenMembershipsByToken[tok]` lists `id` iff membership `id` exists with token `tok`;
+`tokenMembershipsByTeam[team]` lists `id` iff membership `id` exists with team `team`.
+(index ⊆ records: `MemInv.s1–s3`; records ⊆ index: `MemInv.c1` and `PInv.c4`.) -/
+theorem C22_membership_indexes_agree (evs : List Ev) (hinc : idxIncreasing 1 evs = true) :
+    let a := (runEv State.empty evs).au
+    (∀ tok tm id, get2? a.memByPair tok tm = some id ↔
+        ∃ e, a.members.get? id = some e ∧ e.token = tok ∧ e.team = tm) ∧
+    (∀ tok id, get2? a.memByToken tok id = some () ↔ ∃ e, a.members.get? id = some e ∧ e.token = tok) ∧
+    (∀ tm id, get2? a.memByTeam tm id = some () ↔ ∃ e, a.members.get? id = some e ∧ e.team = tm) := by
+  have hm := memInv_runEv State.empty 1 evs (memInv_empty _) hinc
+  have hp := pinv_runEv State.empty evs pinv_empty
+  refine ⟨?_, ?_, ?_⟩
+  · intro tok tm id
+    constructor
+    · exact hm.s1 tok tm id
+    · rintro ⟨e, he, h1, h2⟩; rw [← h1, ← h2]; exact hm.c1 id e he
+  · intro tok id
+    constructor
+    · exact hm.s2 tok id
+    · rintro ⟨e, he, h1⟩; rw [← h1]; exact (hp.c4 id e he).1
+  · intro tm id
+    constructor
+    · exact hm.s3 tm id
+    · rintro ⟨e, he, h1⟩; rw [← h1]; exact (hp.c4 id e he).2
+
+/-- non-vacuity: one token in two teams, two tokens in one team, a partial removal, a team cascade, a
+restore — the pair index still knows the surviving memberships -/
+example :
+    let mk (t tm : Int) : Cmd := .addMember { id := 0, token := t, team := tm, created := 5, lsn := 0 }
+    let evs : List Ev :=
+      [.cmd 1 (.createOrg { id := 0, name := "acme", desc := "", created := 5, updated := 0, enabled := false, lsn := 0 }),
+       .cmd 2 (.createTeam { id := 0, org := 1, name := "core", desc := "", created := 5, updated := 0, enabled := false, lsn := 0 }),
+       .cmd 3 (.createTeam { id := 0, org := 1, name := "ops", desc := "", created := 5, updated := 0, enabled := false, lsn := 0 }),
+       .cmd 4 (.createToken tokA), .cmd 5 (.createToken { tokA with name := "tB" }),
+       .cmd 6 (mk 4 2), .cmd 7 (mk 4 3), .cmd 8 (mk 5 2), .cmd 9 (.removeMember 5 2), .cmd 10 (.deleteTeam 2), .restore]
+    idxIncreasing 1 evs = true ∧ get2? (runEv State.empty evs).au.memByPair 4 3 = some 7 ∧
+    (runEv State.empty evs).au.members.length = 1 ∧
+    (apply (runEv State.empty evs) 11 (mk 4 3)).2 = .exists := by decide
 
 /-! ## traversal indexes of the RBAC hierarchy are complete (full strength) -/
 
